@@ -203,6 +203,44 @@ def run(ctx):
         finally:
             api._store_var = None
             shutil.rmtree(d, ignore_errors=True)
+    # path operations over the local store (not part of the lock step with the model above): several spellings of one path
+    # ('/d/p2', '/d/p2/', '/d//p2' are one link for the local store), and a second handle on the same directories re-pointing a
+    # path behind the cache's back: the wrapper answers what the bare store answers
+    SPELL = {"/p1": ["/p1", "/p1/", "//p1"], "/d/p2": ["/d/p2", "/d/p2/", "/d//p2"], "/p3": ["/p3", "/p3/"]}
+    for i in range(60 if thorough else 16):
+        cap = caps[i % len(caps)]
+        d = tempfile.mkdtemp(prefix="ddsverif_c12p_")
+        try:
+            bare = LocalFileStore(d + "/bi", d + "/bd")
+            wrapped = LRUCacheStore(LocalFileStore(d + "/wi", d + "/wd"), num_elem=cap)
+            other = LocalFileStore(d + "/wi", d + "/wd")          # a second handle on the wrapped store's directories
+            other_b = LocalFileStore(d + "/bi", d + "/bd")
+            for k in ("k1", "k2", "k3"):
+                for st in (bare, wrapped):
+                    st.store_blob(k, Obj(1), None)
+            ops = []
+            for _ in range(rng.randint(4, 14)):
+                p = rng.choice(sorted(SPELL))
+                r = rng.random()
+                if r < 0.45:
+                    ops.append(["sync", [[rng.choice(SPELL[p]), rng.choice(["k1", "k2", "k3"])]], rng.random() < 0.3])
+                else:
+                    ops.append(["fetch_paths", [rng.choice(SPELL[p])], False])
+            res.evaluations += 1
+            res.count("local_path_sequences")
+            res.nontrivial("paths %d %s" % (cap, json.dumps(ops)))
+            for j, (kind, arg, behind) in enumerate(ops):
+                op = [kind, arg]
+                # 'behind': the commit goes through the second handle (another process), not through the wrapper
+                ob = apply_op(other_b if behind else bare, op, DDSException)
+                ow = apply_op(other if behind else wrapped, op, DDSException)
+                if ob != ow:
+                    res.violations.append({"what": "path operation %d %s%s answers %s on the bare local store, %s through the cache" % (
+                        j, op, " (committed through a second handle on the same directories)" if behind else "", ob, ow),
+                        "input": {"inner": "local", "capacity": cap, "ops": [[k_, a_, "second handle" if b_ else "wrapper"] for (k_, a_, b_) in ops[: j + 1]]}, "kf": None})
+                    break
+        finally:
+            shutil.rmtree(d, ignore_errors=True)
     # the capacity chosen by set_store(cache_objects=...)
     copts = [None, False, True, 0, -1, 1, 5, 10 ** 6]
     for c in copts:
